@@ -99,18 +99,18 @@ const (
 
 // Field is one proto field as the generator sees it.
 type Field struct {
-	Num      int32
-	Name     string // proto name (also the json tag of the generated Go field)
-	Kind     Kind
-	Msg      int // index into Schema.Msgs for KMsg (target message), else -1
-	Label    Label
-	Oneof    int // index of the real oneof within the message, -1 if none
-	IsMap    bool
-	MapKey   Kind
-	MapVal   Kind
-	MapValOK bool // map value is one of the 15 scalar kinds
-	FieldAP  bool // (pico.field).always_present
-	Custom   Custom
+	Num                         int32
+	Name                        string // proto name (also the json tag of the generated Go field)
+	Kind                        Kind
+	Msg                         int // index into Schema.Msgs for KMsg (target message), else -1
+	Label                       Label
+	Oneof                       int // index of the real oneof within the message, -1 if none
+	IsMap                       bool
+	MapKey                      Kind
+	MapVal                      Kind
+	MapValOK                    bool // map value is one of the 15 scalar kinds
+	FieldAP                     bool // (pico.field).always_present
+	Custom                      Custom
 	CustomType, CustomSerialize string
 }
 
